@@ -149,30 +149,62 @@ Proof.
   intros H. classes c H; cbn [hd tl]; split; bits; try lia; repeat constructor; bits; lia.
 Qed.
 
-(** decoding what was encoded, whatever follows *)
-Lemma decode4_encode c r0 r1 r2 : cp c ->
+(** decoding what was encoded, whatever follows, provided the string has room for the announced width *)
+Lemma ibc_width c : cp c -> sexp_utf8_initial_byte_count (hd 0 (encode c)) = Z.of_nat (width c).
+Proof.
+  intros H. pose proof (encode_lead c H) as L. unfold lead_count in L. rewrite <- L.
+  rewrite Z2Nat.id; [reflexivity|].
+  unfold sexp_utf8_initial_byte_count.
+  destruct (hd 0 (encode c) <? 192) eqn:?; [lia|]. destruct (hd 0 (encode c) <? 224) eqn:?; [lia|]. bits. lia.
+Qed.
+
+Lemma decode4_encode c r0 r1 r2 rem : cp c -> Z.of_nat (width c) <= rem ->
   let l := encode c ++ [r0; r1; r2] in
-  match sexp_string_utf8_ref (nth 0 l 0) (nth 1 l 0) (nth 2 l 0) (nth 3 l 0) with
+  match sexp_string_utf8_ref (nth 0 l 0) (nth 1 l 0) (nth 2 l 0) (nth 3 l 0) rem with
   | RVal w => Some (verif_c12_unbox_character w)
   | RErr => None
   end = Some c.
 Proof.
-  intros H l. subst l. classes c H; cbn [app nth]; unfold sexp_string_utf8_ref.
+  intros H Hrem l. subst l. pose proof (ibc_width c H) as IW. revert IW.
+  classes c H; cbn [app nth hd]; intros IW; unfold sexp_string_utf8_ref; rewrite IW.
   - destruct (c <? 128) eqn:?; [|lia]. rewrite unbox_make by lia. reflexivity.
   - destruct (192 + c / 64 <? 128) eqn:?; [lia|].
     destruct ((192 + c / 64 <? 192) || (192 + c / 64 >? 247)) eqn:?; [lia|].
+    destruct (Z.of_nat (width c) >? rem) eqn:?; [lia|].
     destruct (192 + c / 64 <? 224) eqn:?; [|lia].
     bits. rewrite <- shl8. rewrite unbox_make by lia. f_equal. lia.
   - destruct (224 + c / 4096 <? 128) eqn:?; [lia|].
     destruct ((224 + c / 4096 <? 192) || (224 + c / 4096 >? 247)) eqn:?; [lia|].
+    destruct (Z.of_nat (width c) >? rem) eqn:?; [lia|].
     destruct (224 + c / 4096 <? 224) eqn:?; [lia|].
     destruct (224 + c / 4096 <? 240) eqn:?; [|lia].
     bits. rewrite <- shl8. rewrite unbox_make by lia. f_equal. lia.
   - destruct (240 + c / 262144 <? 128) eqn:?; [lia|].
     destruct ((240 + c / 262144 <? 192) || (240 + c / 262144 >? 247)) eqn:?; [lia|].
+    destruct (Z.of_nat (width c) >? rem) eqn:?; [lia|].
     destruct (240 + c / 262144 <? 224) eqn:?; [lia|].
     destruct (240 + c / 262144 <? 240) eqn:?; [lia|].
     bits. rewrite <- shl8. rewrite unbox_make by lia. f_equal. lia.
+Qed.
+
+(** a lead byte cut off by the end of the string (fewer bytes left than it announces) is an error,
+    whatever the bytes behind the end of the string are; an ASCII character never is cut off *)
+Lemma decode4_truncated c r0 r1 r2 rem : cp c -> 128 <= c -> rem < Z.of_nat (width c) ->
+  let l := encode c ++ [r0; r1; r2] in
+  sexp_string_utf8_ref (nth 0 l 0) (nth 1 l 0) (nth 2 l 0) (nth 3 l 0) rem = RErr.
+Proof.
+  intros H Hc Hrem l. subst l. pose proof (ibc_width c H) as IW. revert IW.
+  classes c H; cbn [app nth hd]; intros IW; unfold sexp_string_utf8_ref; rewrite IW.
+  - lia.
+  - destruct (192 + c / 64 <? 128) eqn:?; [lia|].
+    destruct ((192 + c / 64 <? 192) || (192 + c / 64 >? 247)) eqn:?; [reflexivity|].
+    destruct (Z.of_nat (width c) >? rem) eqn:?; [reflexivity|lia].
+  - destruct (224 + c / 4096 <? 128) eqn:?; [lia|].
+    destruct ((224 + c / 4096 <? 192) || (224 + c / 4096 >? 247)) eqn:?; [reflexivity|].
+    destruct (Z.of_nat (width c) >? rem) eqn:?; [reflexivity|lia].
+  - destruct (240 + c / 262144 <? 128) eqn:?; [lia|].
+    destruct ((240 + c / 262144 <? 192) || (240 + c / 262144 >? 247)) eqn:?; [reflexivity|].
+    destruct (Z.of_nat (width c) >? rem) eqn:?; [reflexivity|lia].
 Qed.
 
 (* ---------------------------------------------------------------- the property-level statements *)
@@ -180,13 +212,13 @@ Qed.
 (** every code point (so every scalar value) survives encode-then-decode, the lead byte announces the
     encoder's width, and that width is the number of bytes written *)
 Theorem utf8_roundtrip_all c : cp c ->
-  forall rest, decode_at (encode c ++ rest) 0 = Some c
+  forall rest, (forall rem, Z.of_nat (width c) <= rem -> decode_at (encode c ++ rest) 0 rem = Some c)
             /\ lead_count (byte_at (encode c ++ rest) 0) = width c
             /\ length (encode c) = width c.
 Proof.
   intros H rest. split; [|split].
-  - unfold decode_at, byte_at.
-    rewrite <- (decode4_encode c (nth 0 rest 0) (nth 1 rest 0) (nth 2 rest 0) H).
+  - intros rem Hrem. unfold decode_at, byte_at.
+    rewrite <- (decode4_encode c (nth 0 rest 0) (nth 1 rest 0) (nth 2 rest 0) rem H Hrem).
     cbv zeta. classes c H; cbn [app nth Nat.add]; reflexivity.
   - unfold byte_at. rewrite <- (encode_lead c H). f_equal.
     classes c H; reflexivity.
@@ -204,10 +236,21 @@ Qed.
 (** conversely every well-formed sequence is decoded to the scalar value it denotes, and encoding
     that value gives the sequence back: decode and encode are inverse bijections between scalar
     values and Table 3-7 sequences *)
-Theorem decode_wellformed l rest : wf_seq l ->
-  decode_at (l ++ rest) 0 = Some (seq_value l) /\ is_scalar (seq_value l) /\ encode (seq_value l) = l.
+(** the same sequence with fewer bytes left in the string than its lead byte announces: an error *)
+Theorem truncated_lead_is_error c : cp c -> 128 <= c ->
+  forall rest rem, rem < Z.of_nat (width c) -> decode_at (encode c ++ rest) 0 rem = None.
 Proof.
-  intros W.
+  intros H Hc rest rem Hrem. unfold decode_at, byte_at.
+  pose proof (decode4_truncated c (nth 0 rest 0) (nth 1 rest 0) (nth 2 rest 0) rem H Hc Hrem) as T.
+  cbv zeta in T.
+  replace (sexp_string_utf8_ref _ _ _ _ rem) with RErr; [reflexivity|].
+  rewrite <- T. classes c H; cbn [app nth Nat.add]; reflexivity.
+Qed.
+
+Theorem decode_wellformed l rest rem : wf_seq l -> Z.of_nat (length l) <= rem ->
+  decode_at (l ++ rest) 0 rem = Some (seq_value l) /\ is_scalar (seq_value l) /\ encode (seq_value l) = l.
+Proof.
+  intros W Hrem.
   assert (V : is_scalar (seq_value l) /\ encode (seq_value l) = l).
   { destruct l as [|b0 [|b1 [|b2 [|b3 [|b4 l]]]]]; cbn [wf_seq] in W; try contradiction;
       unfold cont in W; cbn [seq_value]; unfold is_scalar.
@@ -217,7 +260,8 @@ Proof.
     - split; [lia|]. rewrite encode_4 by lia.
       f_equal; [lia|]. f_equal; [lia|]. f_equal; [lia|]. f_equal; lia. }
   destruct V as [S E]. split; [|split; assumption].
-  rewrite <- E at 1. apply utf8_roundtrip_all. apply scalar_cp; exact S.
+  rewrite <- E at 1. apply utf8_roundtrip_all; [apply scalar_cp; exact S|].
+  rewrite <- (encode_length _ (scalar_cp _ S)), E. exact Hrem.
 Qed.
 
 (** the signed C arithmetic inside the leaf functions never overflows on the domains they are
@@ -240,7 +284,11 @@ Proof.
 Qed.
 
 (** non-vacuity *)
-Example roundtrip_ex : decode_at (encode 128512 ++ [0]) 0 = Some 128512 /\ encode 955 = [206; 187]
+Example truncated_ex : decode_at (encode 8364 ++ [0]) 0 3 = Some 8364 /\ decode_at (firstn 2 (encode 8364) ++ [0]) 0 2 = None
+  /\ decode_at [240; 0] 0 1 = None /\ decode_at [65; 0] 0 1 = Some 65.
+Proof. vm_compute. repeat split. Qed.
+
+Example roundtrip_ex : decode_at (encode 128512 ++ [0]) 0 4 = Some 128512 /\ encode 955 = [206; 187]
   /\ wf_seq (encode 8364) /\ width 65536 = 4%nat.
 Proof.
   split; [vm_compute; reflexivity|]. split; [vm_compute; reflexivity|]. split; [|vm_compute; reflexivity].
